@@ -335,7 +335,7 @@ func writeEvidence(id, tier string, seed int, pc *PropConfig, r *checkResult, wa
 	for _, k := range sortStrings(r.usedSpecs) {
 		trusted = append(trusted, "contract used at call sites: "+k)
 	}
-	var assumptions []string
+	assumptions := []string{}
 	for _, k := range sortStrings(r.assumptions) {
 		assumptions = append(assumptions, k)
 	}
